@@ -256,6 +256,7 @@ func solveOneCtx(parent context.Context, file string, cfg SolveCfg) *SolveResult
 	grace := time.After(time.Duration(cfg.TimeoutS) * time.Second / 5)
 	stage2Started := len(stage2) == 0
 	final := &SolveResult{Status: "unknown", All: map[string]string{}}
+	var crossDone <-chan time.Time
 	var best *ans
 	t0 := time.Now()
 	for running > 0 {
@@ -263,6 +264,11 @@ func solveOneCtx(parent context.Context, file string, cfg SolveCfg) *SolveResult
 		select {
 		case a = <-res:
 			running--
+		case <-crossDone:
+			// cross-check window of the thorough tier is over: the solvers still running are stopped
+			cancel()
+			running = 0
+			continue
 		case <-grace:
 			if !stage2Started {
 				stage2Started = true
@@ -282,6 +288,13 @@ func solveOneCtx(parent context.Context, file string, cfg SolveCfg) *SolveResult
 					cancel()
 					break
 				}
+				// thorough tier: the other solvers get a bounded window (three times the winner's time, at least
+				// 10 s) to confirm or contradict the verdict
+				w := 3 * time.Since(t0)
+				if w < 10*time.Second {
+					w = 10 * time.Second
+				}
+				crossDone = time.After(w)
 			} else if best.status != a.status {
 				final.Status = "error"
 				final.Output = fmt.Sprintf("solver disagreement: %s=%s %s=%s", best.solver, best.status, a.solver, a.status)
